@@ -163,6 +163,7 @@ def check(ctx):
     o = Ob('C15.2', 'K8', 'every add_datapoint site: sub-label is the source name, the datapoint is a tuple starting with the current time; '
                           'Environment.add_datapoint appends it exactly once under (label, sub-label)')
     obs.append(o)
+    dv.check_defaults(ctx, o, [('Part', '__init__', 'quality'), ('PartGenerator', '__init__', 'quality'), ('Environment', 'run', 'trace'), ('System', 'simulate', 'trace')])
     Asset = P.cls('Asset')
     sites = inv.method_calls(P, 'add_datapoint')
     o.require(len(sites) >= 5, f'only {len(sites)} add_datapoint sites found (expected 9)')
